@@ -64,6 +64,7 @@ OPS = st.one_of(
     st.tuples(st.just("fresh"), st.booleans()),
     st.tuples(st.just("batch")),
     st.tuples(st.just("loglevel"), st.sampled_from((10, 20, 30))),
+    st.tuples(st.just("rewire"), st.integers(0, 20), st.integers(0, 5), st.integers(0, 5)),
 )
 
 
@@ -187,6 +188,28 @@ class Interp:
             mode = bool(op[1])
             self.note_solve(mode)
             self.compare(mode, self.outcome(lambda: self.build(mode).solve()), what)
+        elif kind == "rewire":
+            # the CALLER edits its own description in place (one transition now leads to an absorbing state; the
+            # numbers of states and transitions stay the same).  From here on the description is the edited one:
+            # fresh objects give the reference, and objects built earlier - which hold the caller's lists - must
+            # give exactly the same.
+            d = self.desc
+            n = len(d["players"])
+            absorbing = [s_ for s_ in range(n) if all(t_ == s_ for _, t_ in d["transition_list"][s_])]
+            movable = [s_ for s_ in range(n) if s_ not in absorbing]
+            if not absorbing or not movable:
+                return True
+            s_ = movable[op[1] % len(movable)]
+            lst = d["transition_list"][s_]
+            k_ = op[2] % len(lst)
+            lst[k_] = (lst[k_][0], absorbing[op[3] % len(absorbing)])
+            self.pristine = copy.deepcopy({f: d[f] for f in FIELDS})
+            self.print0 = {f: structure(self.pristine[f]) for f in FIELDS}
+            self.first = {}
+            self.v.cls("caller_rewired_description")
+            for mode in (True, False):
+                self.note_solve(mode)
+                self.first[mode] = self.outcome(lambda: self.build(mode).solve())
         elif kind == "loglevel":
             # the process-wide logging level the repository sees (DEBUG=10, INFO=20, WARNING=30): results
             # must not depend on it
@@ -342,6 +365,10 @@ def make_machine(sink):
         @rule(level=st.sampled_from((10, 20, 30)))
         def set_log_level(self, level):
             self._do(("loglevel", level))
+
+        @rule(a=st.integers(0, 20), b=st.integers(0, 5), c=st.integers(0, 5))
+        def caller_rewires_description(self, a, b, c):
+            self._do(("rewire", a, b, c))
 
         @invariant()
         def description_intact(self):
